@@ -19,4 +19,12 @@ theorem tth_decode_no_overreport (b : Bytes) (cap : Nat) (hcap : b.length ≤ ca
   have h2 := (C10.decode_safe b cap hcap).2.2.1
   omega
 
+/-- the exported entry point itself: DecodeFromBytes is Decode over a bytes reader of exactly `bs` -/
+theorem tth_decodeFromBytes_eq (b : Bytes) (cap : Nat) : decodeFromBytes b cap = (decodeBytes b cap).1 := rfl
+
+theorem tth_decodeFromBytes_safe (b : Bytes) (cap : Nat) (hcap : b.length ≤ cap) :
+    (decodeFromBytes b cap).Safe ∧ decodeFromBytes b cap ≠ .err .nofuel := by
+  rw [tth_decodeFromBytes_eq]
+  exact ⟨(tth_decode_safe b cap hcap).1, (tth_decode_safe b cap hcap).2.1⟩
+
 end Verif.C03
